@@ -216,7 +216,9 @@ def run_pop3d(binary, workdir, idx, job, breaker, timeout=5.0):
     after = list_maildir(md)
     if rc in (120, 121) and not job.get("root"):
         raise RuntimeError("launcher %s failed (%d)" % (ASUSER, rc))
+    mts = sorted(set(f["mt"] for f in files))
     return {"k": "d", "files": [{"d": f["d"], "n": list(f["n"]), "x": list(f["x"])} for f in files],
+            "mt": [mts.index(f["mt"]) + 1 for f in files],
             "cmds": cmds, "reps": reps, "after": after, "root": 1 if job.get("root") else 0, "greet": greet,
             "rc": rc if rc >= 0 else 1000 - rc, "tail": len(tail), "hung": 1 if conn.timedout else 0}
 
